@@ -61,6 +61,9 @@ MUTATIONS = [
     ("dask_expr/_concat.py", "                        kwargs,\n                    )\n                ctr += 1\n        return dsk", "                        kwargs,\n                    )\n                    ctr += 1\n        return dsk", "vf.contracts.layers:StackPartitionLayer", "inv-preserved:loop1"),
     ("dask_expr/_concat.py", "                            [meta, (df._name, i)],", "                            [meta, (df._name, 0)],", "vf.contracts.layers:StackPartitionLayer", "post:dataflow-frames-stacked-in-order"),
     ("dask_expr/_concat.py", "                    [(df._name, i) for df in dfs],", "                    [(df._name, i) for df in dfs[1:]],", "vf.contracts.layers:StackInterleavedLayer", "post:output-i-concatenates-partition-i-of-every-frame"),
+    ("dask_expr/_expr.py", "                    dsk[(name_prepend, i)] = (M.tail, (self.frame._name, i), before)", "                    dsk[(name_prepend, i)] = (M.tail, (self.frame._name, i + 1), before)", "vf.contracts.layers:OverlapLayer", "post:K3-helpers-read-the-neighbouring-partition"),
+    ("dask_expr/_expr.py", "                for i in range(1, self.frame.npartitions):\n                    dsk[(name_append, i)] = (M.head,", "                for i in range(1, self.frame.npartitions - 1):\n                    dsk[(name_append, i)] = (M.head,", "vf.contracts.layers:OverlapLayer", "post:K1-output-i-combines-its-neighbours-windows"),
+    ("dask_expr/_expr.py", "        if self.before:\n            prevs.append(None)\n", "        if self.before:\n", "vf.contracts.layers:OverlapLayer", "inv-init:loop0:acc0"),
     ("dask_expr/_repartition.py", "        nsplits[-1] += mod\n", "        nsplits[0] += mod\n", "vf.contracts.layers:MoreNSplits", "post:"),
     ("dask_expr/_repartition.py", "        return (None,) * (1 + sum(self._nsplits))", "        return (None,) * (1 + len(self._nsplits))", "vf.contracts.layers:MoreDivisions", "post:length-new+1"),
     ("dask_expr/io/io.py", "        for part, k in enumerate(self.operand(\"keys\")):\n            dsk[(self._name, part)] = k", "        for part, k in enumerate(sorted(self.operand(\"keys\"))):\n            dsk[(self._name, part)] = k", "vf.contracts.layers:FromGraphLayer", "HARMLESS-OR-UNDECIDED"),
